@@ -111,6 +111,65 @@ pub fn run_c18(cx: &mut Cx) {
             }
         });
     });
+    // the key store on disk: the library's own writer (KeyPair::write_keypair_to_file), a path with
+    // a HISTORY (nothing there / a longer older document / a shorter one / an earlier key pair of
+    // this run), a crash of the role, and the reload of whatever the file then holds
+    {
+        let store = cx.node("key-store");
+        let path = std::env::temp_dir().join(format!("zksim-keystore-{}-{}-{}.json", std::process::id(), cx.run_index, cx.run_seed & 0xffff)).to_string_lossy().to_string();
+        let history = cx.ch.choose("file_history", 4);
+        cx.count(&format!("fault.store_file_history_{}", ["fresh_path", "longer_older_document", "shorter_older_document", "rotation_after_another_key"][history as usize]));
+        let p1 = path.clone();
+        cx.step(store, "write-key-file", StepOpts::default(), move || {
+            let kp = KeyPair::<Sch>::generate();
+            let json = serde_json::to_string_pretty(&kp).map_err(|e| e.to_string())?;
+            match history {
+                0 => { let _ = std::fs::remove_file(&p1); }
+                1 => std::fs::write(&p1, format!("{json}\n{}\n{{\"stale\": true}}\n", " ".repeat(300))).map_err(|e| e.to_string())?,
+                2 => std::fs::write(&p1, "{}").map_err(|e| e.to_string())?,
+                _ => { let older = KeyPair::<Sch>::generate(); older.write_keypair_to_file(Some(p1.clone())); let mut f = std::fs::OpenOptions::new().append(true).open(&p1).map_err(|e| e.to_string())?; use std::io::Write; f.write_all(b"\n\n").map_err(|e| e.to_string())?; }
+            }
+            kp.write_keypair_to_file(Some(p1.clone()));
+            Ok::<_, String>((serde_json::to_string(kp.public_key()).unwrap(), serde_json::to_string(kp.private_key()).unwrap()))
+        }, move |cx, st| {
+            let (pkj, skj) = match st.out { Ok(Ok(t)) => t, other => { cx.violation("C18", "store/write-failed".into(), format!("{other:?}")); let _ = std::fs::remove_file(&path); return; } };
+            cx.restart(store);
+            let p2 = path.clone();
+            cx.step(store, "reload-key-file", StepOpts::default(), move || {
+                let text = std::fs::read_to_string(&p2).map_err(|e| e.to_string())?;
+                let _ = std::fs::remove_file(&p2);
+                let kp: KeyPair<Sch> = serde_json::from_str(&text).map_err(|e| format!("the stored document does not parse: {e}"))?;
+                Ok::<_, String>((serde_json::to_string(kp.public_key()).unwrap(), serde_json::to_string(kp.private_key()).unwrap()))
+            }, move |cx, st| {
+                cx.eval(&[b"key-file", pkj.as_bytes(), &[history as u8]], true);
+                cx.count("fault.restart_reload_from_file");
+                match st.out {
+                    Ok(Ok((a, b))) if a == pkj && b == skj => cx.count("verdict.roundtrip.ok"),
+                    other => cx.violation("C18", "store/key-file-does-not-read-back".into(), format!("file history {history}: {:?}", other.map(|r| r.map(|_| "another key")))),
+                }
+            });
+        });
+    }
+    // public keys and commitment keys of the sizes of EVERY suite (moduli of 1026, 2050 and 3074
+    // bits; plain primes, the JSON codec does not care) through the serde round trip
+    {
+        let sizes = cx.node("suite-sizes");
+        let seed = cx.run_seed;
+        let bits = [1026u32, 2050, 3074][cx.ch.choose("suite_modulus_bits", 3) as usize];
+        cx.step(sizes, "json-roundtrip-other-sizes", StepOpts::default(), move || {
+            let cpk = odd_size_tp_key(seed, bits, 3);
+            let pk = CL03PublicKey { N: cpk.N.clone(), b: cpk.h.clone(), c: cpk.g_bases[0].clone() };
+            let pk2: Result<CL03PublicKey, _> = serde_json::from_str(&serde_json::to_string(&pk).unwrap());
+            let cpk2: Result<CL03CommitmentPublicKey, _> = serde_json::from_str(&serde_json::to_string(&cpk).unwrap());
+            (pk2.map(|x| x == pk).map_err(|e| e.to_string()), cpk2.map(|x| x == cpk).map_err(|e| e.to_string()), cpk.N.significant_bits())
+        }, move |cx, st| {
+            cx.eval(&[b"other-sizes", &bits.to_le_bytes()], true);
+            match st.out {
+                Ok((Ok(true), Ok(true), _)) => cx.count("verdict.roundtrip.ok"),
+                other => cx.violation("C18", "encoding/json-roundtrip-of-a-key-of-another-suite-size".into(), format!("modulus of {bits} bits: {other:?}")),
+            }
+        });
+    }
     // random exponents: exact lengths and ranges, on a node thread with entropy faults
     let drawer: NodeId = cx.node("drawer");
     let bits = [1u32, 2, 8, 63, 64, 65, 256, 258, 1024, 1536][cx.ch.choose("bits", 10) as usize];
